@@ -192,12 +192,22 @@ def h_name(params, vals, ctx):
     require(0x20 <= cp < 0x100 or 0x7C0 <= cp < 0x840 or 0xFFC0 <= cp < 0x10040)
     require(ch not in "\"\\/'")
     directive = params.get("dir", "make_wav")
-    text = f'{directive} "out.wav", "' + "A" * n + '{S_1}"\n.word 1\n'
+    if cs == "bk":
+        c2 = concretize(cp)  # table codec: realise the code point first (one path per value of the windows)
+        ch = chr(c2)
+        vals = {**vals, "S_1": ch}
+    if params.get("default_name"):
+        text = f'{directive} "' + "A" * n + '{S_1}.wav"\n.word 1\n'
+    else:
+        text = f'{directive} "out.wav", "' + "A" * n + '{S_1}"\n.word 1\n'
     o = assemble([("/w/src/prog.mac", text)], vals, route=ctx.route, charset=cs)
     ctx.observe_outcome(o)
-    enc = ("A" * n + ch).encode(cs)
-    fits = len(enc) <= 16
     ctx.reach(o.status in ("ok", "failed"))
+    try:
+        enc = ("A" * n + ch).encode(cs)
+    except UnicodeEncodeError:
+        return o.status == "failed" and "invalid-character" in o.error_ids
+    fits = len(enc) <= 16
     if not fits:
         return o.status == "failed" and "too-long-string" in o.error_ids
     if o.status != "ok" or o.errors:
@@ -207,7 +217,8 @@ def h_name(params, vals, ctx):
         return False
     fmt, path, name = ef[0][2], ef[0][3], ef[0][4]
     exp = enc + b" " * (16 - len(enc))
-    return fmt == ("bk_wav" if directive == "make_wav" else "bk_turbo_wav") and path == "/w/src/out.wav" and len(name) == 16 and name == exp
+    want_path = "/w/src/out.wav" if not params.get("default_name") else "/w/src/" + "A" * n + ch + ".wav"
+    return fmt == ("bk_wav" if directive == "make_wav" else "bk_turbo_wav") and path == want_path and len(name) == 16 and name == exp
 
 
 SUFFIXES = [".mac", ".MAC", ".Mac", ".ma", ".macx", ".bin", ".BIN", ".b", ""]
@@ -423,6 +434,10 @@ def obligations(tier, seed):
                 continue
             obs.append(Ob(oid=f"name/{d}/{n}", harness=P + "h_name", params={"n": n, "dir": d}, vars={"S_1": "str"}, timeout=600,
                           pre="name = n x 'A' + one symbolic character (utf-8), code point windows around the length boundaries"))
+    for n in (3, 15):
+        obs.append(Ob(oid=f"name/bk-charset/explicit/{n}", harness=P + "h_name", params={"n": n, "dir": "make_wav", "charset": "bk"}, vars={"S_1": "str"}, timeout=900))
+        obs.append(Ob(oid=f"name/bk-charset/from-path/{n}", harness=P + "h_name", params={"n": n, "dir": "make_turbo_wav", "charset": "bk", "default_name": True},
+                      vars={"S_1": "str"}, timeout=900))
     for d in DIRECTIVES:
         for arg in (None, "out/x.dat", "../y.bin", "/abs/z.raw"):
             if tier == "quick" and arg in ("../y.bin",) and d not in ("make_bin", "make_wav"):
